@@ -11,6 +11,7 @@ import os, sys, re, json, random, hashlib
 sys.path.insert(0, os.path.dirname(os.path.abspath(__file__)))
 from vlib import *
 import c01_gen as G
+import c01_sparse as SP
 
 PID = "C01"
 TMP = os.path.join(BUILD, "tmp", PID)
@@ -457,6 +458,9 @@ def main():
     model = extract_model(PID, "C01Extract.v", "c01_driver.ml")
     os.makedirs(TMP, exist_ok=True)
     nev = 0; samples = []; stats = {}
+    if ck.replay and ck.replay.endswith(".txt"):      # a case file of the sparse stream
+        nev += SP.replay(ck, ck.replay)
+        ck.cov["evaluations"] = nev; ck.finish()
     if ck.replay:
         prog = Program.from_json(json.load(open(ck.replay)))
         prog.name = "replay"
@@ -498,6 +502,10 @@ def main():
     else:
         ck.rng.getrandbits(48)
     nev += defects_stream(ck)
+    # sparse storage / kernel stream (tools/c01_sparse.py): command sequences on compressed_vector / compressed_matrix,
+    # extracted model (C01SparseExec.v) vs harness/c01_sparse.cpp, values and stored index structure compared exactly
+    nsp = SP.stream(ck, random.Random(ck.rng.getrandbits(48)), 1200 if thorough else 300)
+    nev += nsp
     # corpus
     cdir = os.path.join(ROOT, "corpus", PID)
     if os.path.isdir(cdir):
